@@ -143,6 +143,7 @@ def parseKeys (ws : List String) : Option (List Key) := ws.mapM ofHex
 
 def parseForm : String → Option (IterForm × ListFmt)
   | "lh" => some (.lhForeach, .pairs)
+  | "lhsafe" => some (.lhForeach, .pairs)     -- lh_foreach_safe: the same walk with the successor read first
   | "foreach" => some (.foreach, .pairs)
   | "foreachc" => some (.foreachC, .pairs)
   | "iterator" => some (.iterator, .pairs)
